@@ -74,6 +74,227 @@ class RecursiveSeqletEmit(FragmentContract):
         return replay_fragment_generic(self._world, self, cfg, env)
 
 
+class RecursiveSeqletCsum(FragmentContract):
+    """C19 (prefix-sum table of _recursive_seqlets, its first statements): X_csum[i, j] is the sum of X[i, 0..j] for
+    every row and position (the table the emission block reads the reported attribution from - there it is an
+    assumption, here it is the postcondition), every cell of the numpy.empty_like buffer is written, every access
+    is inside its array (numba), X is not written.  (That nothing writes X_csum afterwards is a syntactic fact of
+    the function: the contract refuses to apply when a store to X_csum appears outside these statements.)"""
+    qualname = 'tangermeme.seqlet._recursive_seqlets'
+    props = ('C19',)
+    stmt_range = ('n, l = X.shape', 'xmins = numpy.empty(')
+    key = 'tangermeme.seqlet._recursive_seqlets#csum'
+
+    def scopes(self, cfg):
+        return [{'default': 2, 'X.d1': 3}, {'default': 1, 'X.d1': 1}]
+
+    def make_env(self, cfg, A):
+        import ast as _ast
+        # frame, syntactically: X_csum is stored to only inside the prefix-sum loops
+        w = getattr(self, '_world', None)
+        if w is not None:
+            fd = w.bind.function_ast(w.bind.resolve(self.qualname))
+            stores = [n for n in _ast.walk(fd) if isinstance(n, _ast.Subscript) and isinstance(n.ctx, _ast.Store) and isinstance(n.value, _ast.Name) and n.value.id == 'X_csum']
+            rebinds = [n for n in _ast.walk(fd) if isinstance(n, _ast.Name) and isinstance(n.ctx, _ast.Store) and n.id == 'X_csum']
+            if len(stores) != 2 or len(rebinds) != 1:
+                raise Unsupported("X_csum is written outside its prefix-sum loops (%d stores, %d bindings)" % (len(stores), len(rebinds)))
+        n, l = A.dim('n', 0), A.dim('l', 1)
+        X = A.tensor('X', 2, 'real', lib='np', shape=[n, l])
+        fx = z3.Function('X', z3.IntSort(), z3.IntSort(), z3.RealSort())
+        i_, j_ = z3.Ints('pi_ pj_')
+        A.assume(z3.ForAll([i_], PSX(i_, -1) == 0))
+        A.assume(z3.ForAll([i_, j_], z3.Implies(j_ >= 0, PSX(i_, j_) == PSX(i_, j_ - 1) + fx(i_, j_)), patterns=[PSX(i_, j_)]))
+        return dict(X=X)
+
+    def loops(self):
+        def psx_rows(E, fr, rows, cols_of_current=None):
+            C = fr.env['X_csum']
+            out = [('rows-done-are-prefix-sums-and-written', E.forall([rows, C.shape[1]], lambda i, j: And(O.eq(C.elem(i, j), PSX(O.to_z3(i), O.to_z3(j))), C.init_at(i, j))))]
+            return out
+
+        def outer(E, fr):
+            return psx_rows(E, fr, E.it)
+
+        def inner(E, fr):
+            C, i = fr.env['X_csum'], fr.env['i']
+            return psx_rows(E, fr, i) + [('current-row-up-to-j', E.forall([E.it + 1], lambda j: And(O.eq(C.elem(i, j), PSX(O.to_z3(i), O.to_z3(j))), C.init_at(i, j))))]
+        return {1: LoopSpec(outer), 2: LoopSpec(inner)}
+
+    def post_env(self, b, a, outcome, cfg):
+        out = [('no-exception', not outcome.startswith('raise'))]
+        if not out[0][1]:
+            return out
+        C = a.X_csum
+        out.append(('X_csum-is-a-table-like-X', isinstance(C, Tn) and C.rank == 2))
+        if not out[-1][1]:
+            return out
+        out.append(('shape', And(O.eq(C.shape[0], b.X.shape[0]), O.eq(C.shape[1], b.X.shape[1]))))
+        if not O.any_sym(*b.X.shape) and not __import__('vf.spec', fromlist=['x'])._symbolic_content(b.X):
+            from vf.contract import num_eq
+            ok = all(num_eq(float(C.elem(i, j)), sum(float(b.X.elem(i, k)) for k in range(j + 1))) for i in range(int(C.shape[0])) for j in range(int(C.shape[1])))
+            out.append(('X_csum[i, j] = sum of X[i, 0..j]', ok))
+        else:
+            out.append(('X_csum[i, j] = sum of X[i, 0..j]', O.forall(C.shape, lambda i, j: And(O.eq(C.elem(i, j), PSX(O.to_z3(i), O.to_z3(j))), C.init_at(i, j)))))
+        out.extend(same(a.X, b.X, 'X-unwritten'))
+        return out
+
+    def replay_fragment(self, cfg, st):
+        import numpy
+        from vf.contract import replay_fragment_generic
+        n, l = st.get('X.shape', [1, 4])
+        if n < 0 or l < 1 or n * l > 2048:
+            return []
+        rs = numpy.random.RandomState(1)
+        X = numpy.round(rs.normal(0, 1, (n, l)) * 16) / 16
+        return replay_fragment_generic(self._world, self, cfg, dict(X=X))
+
+
+class RecursiveSeqletCdf(FragmentContract):
+    """C19 (null-distribution tables of _recursive_seqlets, the statements between the prefix-sum table and the
+    p-value matrix): for every seqlet length j in [min_seqlet_len, max_seqlet_len], xmins[j] <= s <= xmaxs[j] for the
+    sum s of EVERY window of length j of every row (and xmins[j] <= 0 <= xmaxs[j]); every array access is inside its
+    array - in particular the histogram cell floor(999 * s / xmax) (resp. xmin) lies in [0, 999] because s is one of
+    the sums the extremum was taken over (numba: no bounds checks); the prefix-sum table is not written.  The block
+    raises ZeroDivisionError when some length has no positive or no non-positive window (nothing is claimed then)."""
+    qualname = 'tangermeme.seqlet._recursive_seqlets'
+    props = ('C19',)
+    stmt_range = ('xmins = numpy.empty(', 'p_value = numpy.ones(')
+    key = 'tangermeme.seqlet._recursive_seqlets#cdf'
+
+    def scopes(self, cfg):
+        return []
+
+    def make_env(self, cfg, A):
+        n, l = A.dim('n', 0), A.dim('l', 1)
+        C = A.tensor('X_csum', 2, 'real', lib='np', shape=[n, l])
+        lo, hi = A.int('min_seqlet_len', lo=1), A.int('max_seqlet_len', lo=1)
+        A.assume(lo <= hi)
+        return dict(X_csum=C, n=n, l=l, min_seqlet_len=lo, max_seqlet_len=hi)
+
+    @staticmethod
+    def W(C, i, k, j):
+        return C.elem(i, k + j) - C.elem(i, k)
+
+    def loops(self):
+        W = self.W
+
+        def bounded(E, fr, lo_, hi_, rows, upto_in_row=None, j=None):
+            """lo_ <= W(i, k, j) <= hi_ for all windows of rows < rows (and the first `upto_in_row` windows of row `rows`)"""
+            env = fr.env
+            C, l = env['X_csum'], env['l']
+            j = env['j'] if j is None else j
+            out = [('extrema-straddle-zero', And(lo_ <= 0, hi_ >= 0)),
+                   ('extrema-bound-the-windows-of-the-rows-done', E.forall([rows, l - j], lambda i, k: And(lo_ <= W(C, i, k, j), W(C, i, k, j) <= hi_)))]
+            if upto_in_row is not None:
+                out.append(('extrema-bound-the-windows-of-this-row-so-far', E.forall([upto_in_row], lambda k: And(lo_ <= W(C, rows, k, j), W(C, rows, k, j) <= hi_))))
+            return out
+
+        def shapes(E, fr):
+            env = fr.env
+            out = []
+            for nm in ('xmins', 'xmaxs'):
+                if nm in env:
+                    out.append((nm + '-shape', O.eq(env[nm].shape[0], env['max_seqlet_len'] + 1)))
+            if 'X_cdfs' in env:
+                t = env['X_cdfs']
+                out.append(('X_cdfs-shape', And(O.eq(t.shape[0], 2), O.eq(t.shape[1], env['max_seqlet_len'] + 1), O.eq(t.shape[2], 1000))))
+            return out
+
+        def l3(E, fr):
+            env = fr.env
+            C, l, n = env['X_csum'], env['l'], env['n']
+            lo = env['min_seqlet_len']
+            mins, maxs = env['xmins'], env['xmaxs']
+            done = E.forall([E.it], lambda t: And(mins.elem(lo + t) <= 0, maxs.elem(lo + t) >= 0, mins.init_at(lo + t), maxs.init_at(lo + t)))
+            allw = E.forall([E.it, n, l], lambda t, i, k: Implies(k < l - (lo + t), And(mins.elem(lo + t) <= W(C, i, k, lo + t), W(C, i, k, lo + t) <= maxs.elem(lo + t))))
+            return shapes(E, fr) + [('lengths-done:extrema-straddle-zero', done), ('lengths-done:extrema-bound-every-window', allw)]
+
+        def l4(E, fr):
+            env = fr.env
+            return shapes(E, fr) + bounded(E, fr, env['xmin'], env['xmax'], E.it)
+
+        def l5(E, fr):
+            env = fr.env
+            return shapes(E, fr) + bounded(E, fr, env['xmin'], env['xmax'], env['i'], E.it)
+
+        def plain(E, fr):
+            return shapes(E, fr)
+        return {3: LoopSpec(l3), 4: LoopSpec(l4), 5: LoopSpec(l5), 6: LoopSpec(plain), 7: LoopSpec(plain), 8: LoopSpec(plain)}
+
+    def post_env(self, b, a, outcome, cfg):
+        if outcome.startswith('raise'):
+            return [('only-a-division-by-zero-may-stop-the-block', outcome == 'raise:ZeroDivisionError')]
+        C, l, n = b.X_csum, b.l, b.n
+        lo, hi = b.min_seqlet_len, b.max_seqlet_len
+        mins, maxs = a.xmins, a.xmaxs
+        out = [('tables-exist', all(isinstance(t, Tn) for t in (mins, maxs, a.X_cdfs)))]
+        if not out[0][1]:
+            return out
+        out.append(('every-window-sum-lies-between-the-recorded-extrema', O.forall([hi - lo + 1, n, l], lambda t, i, k: Implies(
+            k < l - (lo + t), And(mins.elem(lo + t) <= self.W(C, i, k, lo + t), self.W(C, i, k, lo + t) <= maxs.elem(lo + t), mins.elem(lo + t) <= 0, maxs.elem(lo + t) >= 0)))))
+        out.extend(same(a.X_csum, b.X_csum, 'X_csum-unwritten'))
+        return out
+
+    def replay_fragment(self, cfg, st):
+        return []
+
+
+class RecursiveSeqletPvalueRow(FragmentContract):
+    """C19 (p-value matrix of _recursive_seqlets, the body of the loop over seqlet lengths inside the per-example loop):
+    given tables whose extrema bound every window sum of length j (the postcondition of the table construction), the
+    look-up cell floor(999 * s / extremum) of every window lies in [0, 999] and every other access is inside its array
+    (numba: no bounds checks); only cells p_value[j, 1 .. l-j-1] are written - the other lengths' rows, column 0 and
+    the columns from l-j on keep their values - and no other array is written.  A window sum of exactly 0 against a
+    zero minimum raises ZeroDivisionError (nothing is claimed then)."""
+    qualname = 'tangermeme.seqlet._recursive_seqlets'
+    props = ('C19',)
+    loop_ordinal = 10
+    key = 'tangermeme.seqlet._recursive_seqlets#pvalue-row'
+
+    def scopes(self, cfg):
+        return []
+
+    def make_env(self, cfg, A):
+        n, l = A.dim('n', 1), A.dim('l', 1)
+        lo, hi = A.int('min_seqlet_len', lo=1), A.int('max_seqlet_len', lo=1)
+        A.assume(lo <= hi)
+        C = A.tensor('X_csum', 2, 'real', lib='np', shape=[n, l])
+        mins = A.tensor('xmins', 1, 'real', lib='np', shape=[hi + 1])
+        maxs = A.tensor('xmaxs', 1, 'real', lib='np', shape=[hi + 1])
+        cdfs = A.tensor('X_cdfs', 3, 'real', lib='np', shape=[2, hi + 1, 1000])
+        pv = A.tensor('p_value', 2, 'real', lib='np', shape=[hi + 1, l])
+        i, j = A.int('i', lo=0), A.int('j', lo=1)
+        A.assume(i < n, lo <= j, j <= hi)
+        W = RecursiveSeqletCdf.W
+        # what the table construction established for this length
+        A.assume(And(mins[j] <= 0, maxs[j] >= 0))
+        A.assume(O.forall_hyp([n, l], lambda r, k: Implies(k < l - j, And(mins[j] <= W(C, r, k, j), W(C, r, k, j) <= maxs[j]))))
+        return dict(X_csum=C, xmins=mins, xmaxs=maxs, X_cdfs=cdfs, p_value=pv, i=i, j=j, n=n, l=l, min_seqlet_len=lo, max_seqlet_len=hi)
+
+    def loops(self):
+        def inner(E, fr):
+            env = fr.env
+            pv, old = env['p_value'], E.old.p_value
+            j, l = env['j'], env['l']
+            return [('p_value-shape', And(O.eq(pv.shape[0], old.shape[0]), O.eq(pv.shape[1], old.shape[1]))),
+                    ('only-this-row-columns-1..k-written', E.forall(pv.shape, lambda r, c: Implies(Or(O.ne(r, j), c < 1, c >= 1 + E.it), O.eq(pv.elem(r, c), old.elem(r, c)))))]
+        return {11: LoopSpec(inner)}
+
+    def post_env(self, b, a, outcome, cfg):
+        if outcome.startswith('raise'):
+            return [('only-a-division-by-zero-may-stop-the-row', outcome == 'raise:ZeroDivisionError')]
+        pv0, pv1 = b.p_value, a.p_value
+        j, l = b.j, b.l
+        out = [('p_value-shape', And(O.eq(pv1.shape[0], pv0.shape[0]), O.eq(pv1.shape[1], pv0.shape[1]))),
+               ('only-cells-[j, 1..l-j-1]-written', O.forall(pv0.shape, lambda r, c: Implies(Or(O.ne(r, j), c < 1, c >= l - j), O.eq(pv1.elem(r, c), pv0.elem(r, c)))))]
+        for nm in ('X_csum', 'xmins', 'xmaxs', 'X_cdfs'):
+            out.extend(same(getattr(a, nm), getattr(b, nm), nm + '-unwritten'))
+        return out
+
+    def replay_fragment(self, cfg, st):
+        return []
+
+
 class TfmodiscoSeqletRow(FragmentContract):
     """C19 (row construction of tfmodisco_seqlets, the body of its last loop): for a seqlet (example, start, end) that
     spans window_size + 2*flank positions, the row appended is (example, start, end, attr) with attr exactly the sum
@@ -202,5 +423,8 @@ class IterativeExtractStep(FragmentContract):
 
 def register(world):
     world.register_fragment(RecursiveSeqletEmit())
+    world.register_fragment(RecursiveSeqletCsum())
+    world.register_fragment(RecursiveSeqletCdf())
+    world.register_fragment(RecursiveSeqletPvalueRow())
     world.register_fragment(TfmodiscoSeqletRow())
     world.register_fragment(IterativeExtractStep())
